@@ -324,6 +324,16 @@ func hTruthy(x any) bool {
 	return false
 }
 
+func (m *Machine) longestOtherList(l at.List) at.List {
+	var best at.List
+	for _, v := range m.vars {
+		if c, ok := v.(at.List); ok && c != l && (best == nil || c.Count() > best.Count()) {
+			best = c
+		}
+	}
+	return best
+}
+
 // touch: a callback may itself iterate (nested iteration is ordinary use: a matrix, a list of records); reading the element's own
 // content from inside the callback, and the receiver's through a second iteration, must not disturb the iteration in progress
 var touchDepth int32
@@ -618,7 +628,18 @@ func (m *Machine) execX(o *Op) (xout string, result any, hasResult bool) {
 		}
 		return "", at.NewObjectFrom(arg), true
 	case "XLFilter":
-		return "", m.list(o.R).Filter(func(x any) bool { return applyPred(o.Pred, o.PKind, x) }), true
+		l := m.list(o.R)
+		first := true
+		return "", l.Filter(func(x any) bool {
+			if first {
+				first = false
+				if other := m.longestOtherList(l); other != nil {
+					other.Filter(func(any) bool { return true })
+					other.ForEachValue(func(any) {})
+				}
+			}
+			return applyPred(o.Pred, o.PKind, x)
+		}), true
 	case "XLFilterK":
 		l := m.list(o.R)
 		p := func(x any) bool { return applyPred(o.Pred, o.PKind, x) }
@@ -636,7 +657,16 @@ func (m *Machine) execX(o *Op) (xout string, result any, hasResult bool) {
 		}
 		panic("XLFilterK: no such variant")
 	case "XLMap":
-		return "", m.list(o.R).Map(func(i int, x any) any { return applyMapf(o.Mapf, i, x) }), true
+		l := m.list(o.R)
+		return "", l.Map(func(i int, x any) any {
+			if i == 0 {
+				if other := m.longestOtherList(l); other != nil {
+					other.Map(func(_ int, y any) any { return y })
+					other.ForEach(func(int, any) {})
+				}
+			}
+			return applyMapf(o.Mapf, i, x)
+		}), true
 	case "XLMapAsync":
 		return "", m.list(o.R).MapAsync(func(i int, x any) any { return applyMapf(o.Mapf, i, x) }), true
 	case "XLMapValues":
@@ -673,6 +703,12 @@ func (m *Machine) execX(o *Op) (xout string, result any, hasResult bool) {
 				touch(x)
 				if i == 0 {
 					l.ForEach(func(int, any) {}) // the receiver iterated again from inside its own iteration
+					if other := m.longestOtherList(l); other != nil {
+						other.ForEach(func(int, any) {}) // and another live list (a matrix walked row by row does this)
+						other.ForEachValue(func(any) {})
+						other.Map(func(_ int, x any) any { return x })
+						other.Filter(func(any) bool { return true })
+					}
 				}
 				log = append(log, iv{i, x})
 			})
@@ -694,7 +730,18 @@ func (m *Machine) execX(o *Op) (xout string, result any, hasResult bool) {
 	case "XLForEachValue":
 		l := m.list(o.R)
 		var log []any
-		if l.ForEachValue(func(x any) { touch(x); log = append(log, x) }) != l {
+		first := true
+		if l.ForEachValue(func(x any) {
+			touch(x)
+			if first {
+				first = false
+				if other := m.longestOtherList(l); other != nil {
+					other.ForEachValue(func(any) {})
+					other.ForEach(func(int, any) {})
+				}
+			}
+			log = append(log, x)
+		}) != l {
 			m.fail("ForEachValue did not return its receiver")
 		}
 		return "(XO (OVs " + ovs(log) + "))", nil, false
